@@ -5,6 +5,7 @@
 #include <glm/glm.hpp>
 #include <glm/gtc/quaternion.hpp>
 #include <glm/gtx/quaternion.hpp>
+#include <glm/gtx/dual_quaternion.hpp>
 using namespace orc;
 typedef long double LD;
 template<class T> static const char* tn(); template<> const char* tn<float>() { return "f32"; } template<> const char* tn<double>() { return "f64"; }
@@ -41,6 +42,10 @@ template<class T> static void run(Rng& g, int n) {
 		if (cls != 3 && qdot(X, Y) > -0.99L) { count("mix" + ty); auto r = glm::mix(x, y, t); Q4 R = toL(r); Q4 E = ref_slerp(X, Y, t, 0, false); LD c0 = qdot(X, Y); LD s0 = sinl(acosl(std::max((LD)-1, std::min((LD)1, c0)))); LD tm = 64 * eps * (1 + fabsl((LD)t)) / std::max(s0, sqrtl(eps));
 		  bool nan = !(R.w == R.w && R.x == R.x); if (nan) fail("mix" + ty, std::string(cn[cls]) + ":nan", in, "finite", qs(r)); else if (!(qdiff(R, E) <= tm)) fail("mix" + ty, cn[cls], in, "reference (oriented arc)", qs(r)); }
 		{ T tl = (T)g.real(0, 1); count("lerp" + ty); auto r = glm::lerp(x, y, tl); Q4 R = toL(r); Q4 E{X.w * (1 - (LD)tl) + Y.w * tl, X.x * (1 - (LD)tl) + Y.x * tl, X.y * (1 - (LD)tl) + Y.y * tl, X.z * (1 - (LD)tl) + Y.z * tl}; if (!(qdiff(R, E) <= 8 * eps)) fail("lerp" + ty, "value", in, "x(1-a)+ya", qs(r)); }
+		// dual-quaternion lerp: the affine blend of x with +-y (the sign of dot(x.real, y.real), compared away from dot = 0), both parts; a in {0, 1} gives the end points
+		{ T tl = it % 4 == 0 ? (T)0 : it % 4 == 1 ? (T)1 : (T)g.real(0, 1); glm::tdualquat<T> dx(x, y), dy(it % 2 ? y : -y, x); count("dual_lerp" + ty); auto r = glm::lerp(dx, dy, tl); LD sg = qdot(X, toL(dy.real)) < 0 ? -1 : 1; Q4 Yr = toL(dy.real), Yd = toL(dy.dual), Xd = toL(y);
+		  Q4 Er{X.w * (1 - (LD)tl) + sg * Yr.w * tl, X.x * (1 - (LD)tl) + sg * Yr.x * tl, X.y * (1 - (LD)tl) + sg * Yr.y * tl, X.z * (1 - (LD)tl) + sg * Yr.z * tl}, Ed{Xd.w * (1 - (LD)tl) + sg * Yd.w * tl, Xd.x * (1 - (LD)tl) + sg * Yd.x * tl, Xd.y * (1 - (LD)tl) + sg * Yd.y * tl, Xd.z * (1 - (LD)tl) + sg * Yd.z * tl};
+		  if (fabsl(qdot(X, Yr)) > 1e-4L && !(qdiff(toL(r.real), Er) <= 8 * eps && qdiff(toL(r.dual), Ed) <= 8 * eps)) fail("dual_lerp" + ty, tl == 0 || tl == 1 ? "end point" : "value", in + " a=" + str((double)tl), "x(1-a) +- y a", qs(r.real)); }
 		{ count("shortMix" + ty); auto r = glm::shortMix(x, y, t); Q4 R = toL(r); Q4 E = ref_slerp(X, Y, t, 0, true); bool nan = !(R.w == R.w); if (nan) fail("shortMix" + ty, std::string(cn[cls]) + ":nan", in, "finite", qs(r)); else if (t == 0 && !(qdiff(R, X) <= 64 * eps)) fail("shortMix" + ty, "t=0", in, qs(x), qs(r)); (void)E; }
 		if (it < 2) sample("C13 " + in);
 	}
